@@ -70,11 +70,13 @@ for pid in sorted(TITLES):
             "text": (
                 "Static analysis of the repository's current source (never executed): the structural clauses of this property "
                 "named in level_note are decided for every path of the anchored functions. Each clause is a necessary condition "
-                "of the behaviour (breaking it breaks the property for some input) and is insensitive to behaviour-preserving "
-                "rewrites (guards are compared as normalised formulas, anchors are found by role). It does not decide the "
-                "run-time behaviour as a whole: the undecided remainder is listed after 'NOT decided' in level_note. The "
-                "thorough tier additionally validates the checker itself: every listed source mutant must be reported and every "
-                "behaviour-preserving twin must stay silent."),
+                "of the behaviour (breaking it breaks the property for some input). Behaviour-preserving rewrites are absorbed "
+                "before the rules run: every function that differs from the pinned one is renamed / canonicalised / compared in a "
+                "normal form under program equivalences (DESIGN.md section 10), guards are compared as normalised formulas, anchors "
+                "are found by role. It does not decide the run-time behaviour as a whole: the undecided remainder is listed after "
+                "'NOT decided' in level_note. The thorough tier additionally validates the checker itself: every listed source mutant "
+                "and every independently seeded breaking change must be reported, and every behaviour-preserving twin and every "
+                "independently written refactoring must stay silent."),
             "design_ref": f"DESIGN.md section 4, {pid}",
         },
         "level_note": getattr(mod, "EXPLANATION", ""),
@@ -96,7 +98,8 @@ manifest = {
         "serves_properties": [c["property_id"] for c in checks],
         "kind_free_text": "repository-specific static analysis on Python's ast: program index, statement CFG with dominators and "
                           "bounded path enumeration, guard algebra over linear time expressions, finite-domain typestate "
-                          "interpreter, effect summaries, CSV row schema extraction, value-flow; stdlib only",
+                          "interpreter, effect summaries, CSV row schema extraction, value-flow; reference-guided canonicalisation and a normal "
+                          "form of functions under program equivalences (alpha / canon / nf); stdlib only",
     }],
     "checks": checks,
     "not_applicable": not_applicable,
